@@ -1,0 +1,55 @@
+//go:build verif
+
+package list
+
+import "fmt"
+
+// VerifCheck is a structural self-check of the doubly linked list: the forward walk
+// equals the backward walk reversed, the cached length equals the node count and the
+// end pointers are nil-terminated.
+func (l *LinkedList) VerifCheck() error {
+	var fwd []*Node
+	for n := l.head; n != nil; n = n.next {
+		fwd = append(fwd, n)
+		if len(fwd) > 1<<24 {
+			return fmt.Errorf("forward walk does not terminate")
+		}
+	}
+	var bwd []*Node
+	for n := l.tail; n != nil; n = n.prev {
+		bwd = append(bwd, n)
+		if len(bwd) > 1<<24 {
+			return fmt.Errorf("backward walk does not terminate")
+		}
+	}
+	if len(fwd) != len(bwd) {
+		return fmt.Errorf("forward walk has %d nodes, backward walk %d", len(fwd), len(bwd))
+	}
+	for i := range fwd {
+		if fwd[i] != bwd[len(bwd)-1-i] {
+			return fmt.Errorf("forward and backward walks differ at %d", i)
+		}
+	}
+	if int64(len(fwd)) != l.length {
+		return fmt.Errorf("cached length %d, node count %d", l.length, len(fwd))
+	}
+	if l.head != nil && l.head.prev != nil {
+		return fmt.Errorf("head.prev != nil")
+	}
+	if l.tail != nil && l.tail.next != nil {
+		return fmt.Errorf("tail.next != nil")
+	}
+	if (l.head == nil) != (l.tail == nil) {
+		return fmt.Errorf("head/tail nil mismatch")
+	}
+	return nil
+}
+
+// VerifElems returns the elements head to tail by walking the nodes.
+func (l *LinkedList) VerifElems() [][]byte {
+	var out [][]byte
+	for n := l.head; n != nil; n = n.next {
+		out = append(out, n.data)
+	}
+	return out
+}
